@@ -83,6 +83,17 @@ pub trait Suite: RandomizedCiphersuite {
     fn w_commit(share: &frost::keys::SigningShare<Self>, rng: &mut SimRng) -> (frost::round1::SigningNonces<Self>, frost::round1::SigningCommitments<Self>);
     fn w_sign(pkg: &frost::SigningPackage<Self>, nonces: &frost::round1::SigningNonces<Self>, kp: &frost::keys::KeyPackage<Self>) -> Result<frost::round2::SignatureShare<Self>, frost::Error<Self>>;
     fn w_aggregate(pkg: &frost::SigningPackage<Self>, shares: &BTreeMap<Identifier<Self>, frost::round2::SignatureShare<Self>>, pk: &frost::keys::PublicKeyPackage<Self>) -> Result<frost::Signature<Self>, frost::Error<Self>>;
+    fn w_aggregate_custom(pkg: &frost::SigningPackage<Self>, shares: &BTreeMap<Identifier<Self>, frost::round2::SignatureShare<Self>>, pk: &frost::keys::PublicKeyPackage<Self>, mode: frost::CheaterDetection) -> Result<frost::Signature<Self>, frost::Error<Self>>;
+    fn w_reconstruct(kps: &[frost::keys::KeyPackage<Self>]) -> Result<frost::SigningKey<Self>, frost::Error<Self>>;
+}
+
+/// `aggregate_custom` apart: the Taproot crate has no wrapper of its own for it (frost-core's is used there).
+macro_rules! suite_agg_custom {
+    ($f:path) => {
+        fn w_aggregate_custom(pkg: &frost::SigningPackage<Self>, shares: &BTreeMap<Identifier<Self>, frost::round2::SignatureShare<Self>>, pk: &frost::keys::PublicKeyPackage<Self>, mode: frost::CheaterDetection) -> Result<frost::Signature<Self>, frost::Error<Self>> {
+            $f(pkg, shares, pk, mode)
+        }
+    };
 }
 
 /// Generates the `w_*` methods by delegating to the ciphersuite crate's wrapper functions.
@@ -142,16 +153,21 @@ macro_rules! suite_wrappers {
         fn w_aggregate(pkg: &frost::SigningPackage<Self>, shares: &BTreeMap<Identifier<Self>, frost::round2::SignatureShare<Self>>, pk: &frost::keys::PublicKeyPackage<Self>) -> Result<frost::Signature<Self>, frost::Error<Self>> {
             $k::aggregate(pkg, shares, pk)
         }
+        fn w_reconstruct(kps: &[frost::keys::KeyPackage<Self>]) -> Result<frost::SigningKey<Self>, frost::Error<Self>> {
+            $k::keys::reconstruct(kps)
+        }
     };
 }
 
 impl Suite for frost_ristretto255::Ristretto255Sha512 {
     const NAME: &'static str = "ristretto255";
     suite_wrappers!(frost_ristretto255, frost_ristretto255::Ristretto255Sha512);
+    suite_agg_custom!(frost_ristretto255::aggregate_custom);
 }
 impl Suite for frost_ed25519::Ed25519Sha512 {
     const NAME: &'static str = "ed25519";
     suite_wrappers!(frost_ed25519, frost_ed25519::Ed25519Sha512);
+    suite_agg_custom!(frost_ed25519::aggregate_custom);
     fn third_party_verify(vk: &[u8], msg: &[u8], sig: &[u8]) -> Option<bool> {
         let vk: [u8; 32] = vk.try_into().ok()?;
         let sig: [u8; 64] = sig.try_into().ok()?;
@@ -166,11 +182,13 @@ impl Suite for frost_ed25519::Ed25519Sha512 {
 impl Suite for frost_secp256k1::Secp256K1Sha256 {
     const NAME: &'static str = "secp256k1";
     suite_wrappers!(frost_secp256k1, frost_secp256k1::Secp256K1Sha256);
+    suite_agg_custom!(frost_secp256k1::aggregate_custom);
     const COST: u32 = 2;
 }
 impl Suite for frost_secp256k1_tr::Secp256K1Sha256TR {
     const NAME: &'static str = "secp256k1-tr";
     suite_wrappers!(frost_secp256k1_tr, frost_secp256k1_tr::Secp256K1Sha256TR);
+    suite_agg_custom!(frost::aggregate_custom);
     const IS_TR: bool = true;
     const COST: u32 = 2;
     fn third_party_verify(vk: &[u8], msg: &[u8], sig: &[u8]) -> Option<bool> {
@@ -221,11 +239,13 @@ impl Suite for frost_secp256k1_tr::Secp256K1Sha256TR {
 impl Suite for frost_p256::P256Sha256 {
     const NAME: &'static str = "p256";
     suite_wrappers!(frost_p256, frost_p256::P256Sha256);
+    suite_agg_custom!(frost_p256::aggregate_custom);
     const COST: u32 = 3;
 }
 impl Suite for frost_ed448::Ed448Shake256 {
     const NAME: &'static str = "ed448";
     suite_wrappers!(frost_ed448, frost_ed448::Ed448Shake256);
+    suite_agg_custom!(frost_ed448::aggregate_custom);
     const COST: u32 = 9;
 }
 
